@@ -112,6 +112,7 @@ type Run struct {
 	steps    int
 
 	Effects []Effect
+	Stderr  []value // everything the run wrote to standard error, in order
 	Diags   []Diag
 	ObsList []Obs
 	Asserts []AssertRec
